@@ -89,9 +89,9 @@ def run(ctx):
     core.import_ecdsa()
     quick = ctx.tier == "quick"
     rnd = random.Random(ctx.seed)
-    plan = [("T23", "all", "lean"), ("T263", "few", "full"), ("T251", "few", "full"), ("T43", "few", "lean")] if quick else \
+    plan = [("T23", "all", "lean"), ("T263", "few", "full"), ("T251", "few", "full"), ("T43", "few", "lean"), ("T43a", "few", "lean")] if quick else \
            [("T23", "all", "full"), ("T43", "all", "lean"), ("T29", "all", "lean"), ("T41", "all", "lean"),
-            ("T263", "some", "full"), ("T257", "some", "full"), ("T251", "some", "full")]
+            ("T263", "some", "full"), ("T257", "some", "full"), ("T251", "some", "full"), ("T43a", "some", "lean")]
     for cid, how, mode in plan:
         p, a, b, n, G, h = toy.params(cid)
         if n < 100:
